@@ -1,7 +1,7 @@
 \* two indexes, AnySuccessful, fresh caches, user delete, crash
 CONSTANTS N = 2 MaxAtt = 2 Delay = 1 Strategy = "AnySuccessful" PT = 2 FD = 2 TTL = 2 Forbid = FALSE Foreign = FALSE MaxTime = 8 MaxEvq = 3 MaxFaults = 2 MaxCrash = 1 Fresh = TRUE KillDelays = {} KillEdits = {} UserDeletes = TRUE ExtDeletes = FALSE NodeDowns = FALSE
  Rejects = FALSE
- Holds = TRUE Invalids = FALSE D = 48
+ Holds = TRUE Invalids = FALSE WatchBreaks = TRUE D = 48
 SPECIFICATION SSpec
 INVARIANT EmitDone
 CHECK_DEADLOCK FALSE
